@@ -848,6 +848,15 @@ class ParametricSpectrum(Spectrum):
         return self.__ma_order
     ma_order = property(fget=_get_ma_order, fset=_set_ma_order, doc="")
 
+    def _set_lag(self, lag):
+        if lag != getattr(self, '_ParametricSpectrum__lag', None):
+            self.modified = True
+        self.__lag = lag
+    def _get_lag(self):
+        return self.__lag
+    lag = property(fget=_get_lag, fset=_set_lag,
+                   doc="""Getter/Setter of the lag used by the ARMA estimate.""")
+
     def _set_ma(self, ma):
         self.__ma = ma
     def _get_ma(self):
